@@ -5,6 +5,21 @@ VERIF = os.path.dirname(os.path.dirname(os.path.abspath(__file__)))
 
 # id -> (category, technique, level text, level note, design ref)
 CHECKS = {
+ "C04": ("exploration",
+         "runtime monitoring: diagnostic-class monitor over a systematic enumeration of the frozen reference grammar (valid forms with sentinel read-back, single deviations, version gating x six versions) plus random whole documents judged against diagnostics predicted from the reference grammar",
+         "Every element kind (all 203 tags) x {valid form with sentinel values read back from the model, each optional sub-element, each dropped parameter, each duplicated optional, missing required, wrong block form, unknown enum word} and every version-gated sub-element / enum item x the six ASAP2 versions is generated from the frozen copy of the specification DSL, loaded strict and non-strict and judged by the expected diagnostic class; random documents generated for one version are declared at another and must yield exactly the diagnostics the reference grammar predicts. ~2 800 systematic documents (complete in both tiers) + 2 000 / 100 000 random documents.",
+         "trusts: ref/a2l_grammar.dsl (frozen copy of the DSL) as the reference for A2L 1.7.1; read-back through the Debug view; exclusions: wrong block form of A2ML (raw text), duplicates/keyword forms directly behind an open-ended identifier list (list member by definition)",
+         "DESIGN.md section 3 C04"),
+ "C06": ("exploration",
+         "runtime monitoring: two-mode relation monitor (same input loaded strict and non-strict, relation R1-R4 checked on the outcomes) + diagnostic position oracle over documents with faults injected at known lines",
+         "Valid documents, documents with 1-4 injected recoverable faults (unknown sub-element, duplicate optional, digit-leading / over-long identifier, identifier for string, wrong /end tag, too-new and deprecated elements and enum items by declaring another version, trailing tokens) rendered one token per line, and hostile / hard-fault inputs are each loaded in both modes; R1-R4 are evaluated for every input, and every positioned diagnostic must carry the file name passed (string and file loads) and a line inside the span of an injected fault of its class, and every injected fault must be reported. 6 000 / 200 000 input pairs.",
+         "trusts: the fault injector's line bookkeeping; position-less diagnostics (MissingVersionInfo, InvalidVersion) exempt; AdditionalTokensError may carry the line of the last regular token",
+         "DESIGN.md section 3 C06"),
+ "C07": ("exploration",
+         "runtime monitoring: insertion-locality monitor (model equality with the byte-identical document minus the inserted unknown element, log delta, strict error class) over all block-level slots",
+         "For generated documents every block-level slot of every /begin../end block with optional sub-elements (up to 20 random slots per document in quick, all in thorough) receives an unknown payload (bare keyword with scalar arguments, or block with nested unknown blocks and comments); non-strict load must succeed with a model equal to that of the same bytes without the payload and a log that is the baseline log plus exactly one UnknownSubBlock naming the tag; strict load must fail with UnknownSubBlock naming the tag. ~27 000 / >1 000 000 insertions; floor: every block kind with optional sub-elements received insertions.",
+         "trusts: payload alphabet disjoint from grammar tags; bare keywords are not inserted directly behind an open-ended identifier list (stated exclusion)",
+         "DESIGN.md section 3 C07"),
  "C01": ("exploration",
          "runtime monitoring: k-cycle round-trip monitor (model equality by PartialEq and byte equality of texts in every cycle) over grammar-generated documents in all layouts, API-built and API-edited models, with panic/step-budget monitors",
          "Each accepted document (grammar-walk generator covering all 165 element kinds; canonical, C05-class and wide layouts incl. CRLF/mixed line ends, tabs, comments of both kinds in every gap, IF_DATA, A2ML; entry points load_from_string, load, load_fragment) and each model built or edited through the public API is taken through K=3 (quick) / 6 (thorough) load->write cycles; in every cycle load must succeed, the model must equal the previous one and the text must be byte-identical. 4 000 / 150 000 cases. Floors: every element kind of the frozen grammar must have occurred.",
